@@ -863,6 +863,7 @@ func cmdRun(args []string) int {
 		c.count++
 	}
 	exit := 0
+	knownSeen := map[string]bool{}
 	var vioLines, knownLines []string
 	nviol := 0
 	os.MkdirAll(filepath.Join(verifDir, "replays", spec.ID), 0775)
@@ -870,6 +871,26 @@ func cmdRun(args []string) int {
 		c := classes[key]
 		if c.known != nil {
 			knownLines = append(knownLines, fmt.Sprintf("KNOWN-FINDING: property=%s %s: %s (seen %d times, first seed %d)", c.first.v.Property, c.known.ID, c.known.What, c.count, c.first.seed))
+			knownSeen[c.known.ID] = true
+			if os.Getenv("VCHECK_SAVE_KNOWN") != "" && c.first.caseData != nil {
+				// maintenance aid: (re)create the minimised replay file of a listed finding
+				var cs caseT
+				if json.Unmarshal(c.first.caseData, &cs) == nil {
+					sh := &shrinker{bin: plain, wdir: sc.dir, perRun: time.Duration(tp.PerRunS) * time.Second, target: c.first.v,
+						maxAtt: tp.ShrinkAttempts, deadline: time.Now().Add(time.Duration(tp.ShrinkS) * time.Second)}
+					if ok, _ := sh.test(&cs); ok {
+						cs2, st := sh.shrink(cs)
+						rf := replayFile{Property: c.first.v.Property, Class: c.first.v.Class, Msg: c.first.v.Msg, Tier: o.tier, Case: cs2, Shrink: st, OpsFound: len(cs.Ops),
+							FoundBy: fmt.Sprintf("vcheck run %s --tier %s --seed %d (index %d)", spec.ID, o.tier, o.seed, c.first.idx)}
+						if sh.lastMsg != "" {
+							rf.Msg = sh.lastMsg
+						}
+						data, _ := json.MarshalIndent(rf, "", " ")
+						os.MkdirAll(filepath.Join(verifDir, "known_replays"), 0775)
+						os.WriteFile(filepath.Join(verifDir, "known_replays", spec.ID+"-"+c.known.ID+".json"), data, 0644)
+					}
+				}
+			}
 			continue
 		}
 		nviol += c.count
@@ -917,6 +938,30 @@ func cmdRun(args []string) int {
 		os.WriteFile(path, data, 0644)
 		vioLines = append(vioLines, fmt.Sprintf("VIOLATION property=%s replay=%s", c.first.v.Property, path))
 		fmt.Printf("violation class %s (%d runs), first at seed %d:\n  %s\n", c.first.v.Class, c.count, c.first.seed, strings.ReplaceAll(firstN(c.first.v.Msg, 1200), "\n", "\n  "))
+	}
+
+	// every listed open finding of this property is re-demonstrated from its committed replay file
+	for i := range known {
+		k := &known[i]
+		if k.Fixed || k.Property != spec.ID || knownSeen[k.ID] || k.Replay == "" {
+			continue
+		}
+		data, err := os.ReadFile(filepath.Join(verifDir, k.Replay))
+		if err != nil {
+			infra = append(infra, "known finding "+k.ID+": cannot read its replay file: "+err.Error())
+			continue
+		}
+		var rf replayFile
+		if json.Unmarshal(data, &rf) != nil || rf.Case.Harness == "" {
+			infra = append(infra, "known finding "+k.ID+": replay file does not parse")
+			continue
+		}
+		sh := &shrinker{bin: plain, wdir: sc.dir, perRun: time.Duration(tp.PerRunS) * time.Second, target: violation{k.Property, k.Class, ""}, maxAtt: 1}
+		if ok, _ := sh.test(&rf.Case); ok {
+			knownLines = append(knownLines, fmt.Sprintf("KNOWN-FINDING: property=%s %s: %s (re-demonstrated from %s)", k.Property, k.ID, k.What, k.Replay))
+		} else {
+			fmt.Printf("vcheck: note: listed finding %s no longer reproduces from %s on this tree\n", k.ID, k.Replay)
+		}
 	}
 
 	wall := time.Since(t0).Seconds()
